@@ -21,11 +21,11 @@ NEED = ["mode_ldaps", "mode_starttls", "result_ok", "result_err", "result_pendin
         "inj_none", "inj_before", "inj_with", "inj_after",
         "hs_trusted", "hs_untrusted", "hs_wrongName", "hs_stall", "hs_close", "hs_garbage",
         "connector_custom_verify_true", "connector_custom_verify_false", "connector_default_verify_true",
-        "connector_default_verify_false", "timeout_none", "timeout_short",
+        "connector_default_verify_false", "timeout_none", "timeout_short", "via_dial", "via_stream-last", "via_stream-first",
         "ready_verify_true_cert_trusted", "ready_verify_false_cert_untrusted", "ready_verify_false_cert_wrongName",
         "ready_with_injection_real_answer_returned"]
 
-CF = {"mode": "starttls", "verify": True, "connector": "custom", "timeout": "none"}
+CF = {"mode": "starttls", "verify": True, "connector": "custom", "timeout": "none", "via": "dial"}
 SC = {"resp": "success", "rc": 0, "inj": "with", "hs": "trusted"}
 GOOD = [{"e": "accept"}, {"e": "clear", "k": "starttls"}, {"e": "hello"}, {"e": "result", "r": "ok", "late": False},
         {"e": "bindseen", "ch": "tls"}, {"e": "bindresult", "rc": 49}]
@@ -101,7 +101,8 @@ def run(tier):
                     "another message ID, silence}, cleartext BindResponse(success) injected {before, in the same write as, after} the "
                     "StartTLS response (ldaps: before the handshake), then {CA-signed localhost leaf, self-signed leaf, CA-signed leaf "
                     "for another name, silence, close, non-TLS bytes} on the ClientHello - also after a refusal/garbage/wrong ID - x "
-                    "(ldaps | StartTLS) x no_tls_verify x (connector trusting the CA | default) x (conn_timeout none | 1.5 s); "
+                    "(ldaps | StartTLS) x no_tls_verify x (connector trusting the CA | default) x (conn_timeout none | 1.5 s) x (the library dials | "
+                    "a connected TcpStream handed in with set_std_stream() as the last | as the first setter of the chain); "
                     "non-trivial = the server deviates from the honest script somewhere; distinct by configuration and script")
     chk.assumptions += [
         "TLC and the CommunityModules Json reader are correct",
